@@ -54,6 +54,13 @@ def gen_spec(rng, max_einsums=3, allow_three=True):
          "long_lived": n == 3 and rng.random() < 0.3, "bpv": rng.choice([8, 8, 4, 16]),
          "max_fused_loops": rng.choice([None, None, 1, 2]), "max_fused_loops_per_rank_variable": rng.choice([1, 1, 2])}
     p["gbpv"] = rng.choice([None, None, None, "weight: 16", "input: 4", "output: 16"])      # an Einsum-dependent attribute (renames resolve per Einsum)
+    if rng.random() < 0.25:
+        # tapering chain: the last Einsum is tiny and the GlobalBuffer holds all of ITS tensors but not the workload's
+        p["ns"] = [rng.choice([4, 6]), rng.choice([4, 6])] + [rng.choice([1, 1, 2]) for _ in range(n - 1)]
+        a, b = p["ns"][n - 1], p["ns"][n]
+        p["glb"] = p["bpv"] * (M * a + a * b + M * b) + rng.choice([0, 8, 16])
+        p["mme"] = rng.choice([10, 100])
+        p["long_lived"], p["gbpv"], p["three"] = False, None, False
     return p
 
 
@@ -234,3 +241,17 @@ def evaluate_family(af, evaluate_mapping, p, d, fam):
         except Exception:  # noqa
             rejected += 1
     return out, rejected
+
+
+def row_mapping(pm, row):
+    """the concrete joined mapping a row of an (exact / staged, decompressed) join result denotes"""
+    from accelforge.mapper.FFM._join_pmappings import join_pmappings as J
+    names = [e for e in pm.einsum2pmappings if e in pm.einsums_with_pmappings_generated]
+    r = row.copy()
+    for e in names:
+        col = f"{e}<SEP>{J.MAPPING_COLUMN}"
+        v = r[col]
+        if not hasattr(v, "nodes") and not callable(v):
+            r[col] = pm.pmapping_objects[e][v]
+    rvb = J.get_rank_variable_bounds_for_all_einsums(pm.spec)
+    return J.MappingFromRow(r, rvb, names)(_for_model=True)
